@@ -388,6 +388,15 @@ class RunClass(Run):
                 self.seen[k].add(b)
             for k in self.undet:
                 self.bin("fixcoin", bits[k])
+            if len(self.undet) >= 2:
+                # two undetermined outcomes of one call are independent coins ...
+                self.bin("fixpair", (bits[self.undet[0]], bits[self.undet[-1]]))
+            if self.undet:
+                # ... and so are the outcomes of consecutive calls on fresh copies of the state
+                prev = getattr(self, "prev_fix", None)
+                if prev is not None:
+                    self.bin("fixserial", (prev, bits[self.undet[0]]))
+                self.prev_fix = bits[self.undet[0]]
             return bits + (self.count,)
         if kind == "bits":
             bits = tuple(raw[1])
@@ -625,7 +634,9 @@ EXPECTED_BINS = {
     ("state", 2, "cliffstate"): 60, ("state", 2, "productstate"): 36,
     ("state", 1, "pstate"): 6, ("state", 2, "pstate"): 36, ("state_r1", 2, "cliffstate"): 30, ("state_r1", 2, "pstate"): 6,
     ("bits", 3, "rbs"): 8, ("coins", 4, "coin"): 16, ("fixcoin", 1, "coinfix"): 2, ("fixcoin", 2, "coinfix"): 2,
-    ("fixcoin", 3, "coinfix"): 2, ("fixcoin", 4, "coinfix"): 2, ("pair_joint", 2, "pair"): 120, ("pair_first", 2, "pair"): 15,
+    ("fixcoin", 3, "coinfix"): 2, ("fixcoin", 4, "coinfix"): 2,
+    ("fixpair", 2, "coinfix"): 4, ("fixpair", 3, "coinfix"): 4, ("fixpair", 4, "coinfix"): 4,
+    ("fixserial", 1, "coinfix"): 4, ("fixserial", 2, "coinfix"): 4, ("fixserial", 3, "coinfix"): 4, ("fixserial", 4, "coinfix"): 4, ("pair_joint", 2, "pair"): 120, ("pair_first", 2, "pair"): 15,
 }
 
 
